@@ -82,7 +82,7 @@ def redescribe(rng, crys, kind):
                     if not any(np.allclose(crystal.inhalf(v - w), 0, atol=1e-8) for w in new): new.append(v)
             if kind == 'reduce':
                 # atom order as a user might list it: shuffled, ascending or descending in the first coordinate
-                how = rng.choice(['shuffle', 'asc', 'desc'])
+                how = rng.choice(['shuffle', 'asc', 'desc', 'desc'])
                 if how == 'shuffle': rng.shuffle(new)
                 else: new.sort(key=lambda v: tuple(np.round(v, 9)), reverse=(how == 'desc'))
             basis.append(new)
@@ -141,7 +141,7 @@ def run(ctx):
     from onsager import OnsagerCalc
     rng = ctx.rng
     nets = ic.networks()
-    ncase = 18 if ctx.quick else 260
+    ncase = 22 if ctx.quick else 300
     lines, plan = [], []
     for t in range(ncase):
         name, c1, chem, sl1, jn1 = nets[t % len(nets)]
@@ -280,7 +280,12 @@ def vacancy_part(ctx):
         calc1 = vc.calculator(name, 1); calc1b = vc.calculator(name, 1, 6)
         for t in range(1 if ctx.quick else 2):
             try:
-                c2 = redescribe(rng, c1, 'unimodular')
+                # moderately skewed cells only: for strongly skewed non-reduced cells the k-point mesh of the Green function is so
+                # anisotropic that |result(NGFmax=4) - result(NGFmax=6)| no longer measures its accuracy (sq2d described by
+                # [[2,1],[-7,-3]]: 5e-4 off at NGFmax 4 and 6 alike, converging only from 8 on); that accuracy is C10's subject
+                for attempt in range(20):
+                    c2 = redescribe(rng, c1, 'unimodular')
+                    if np.linalg.cond(c2.lattice) <= 6 * np.linalg.cond(c1.lattice): break
                 calc2 = OnsagerCalc.VacancyMediated(c2, chem, c2.sitelist(chem), c2.jumpnetwork(chem, cutoff), 1, NGFmax=4)
                 calc2b = OnsagerCalc.VacancyMediated(c2, chem, c2.sitelist(chem), c2.jumpnetwork(chem, cutoff), 1, NGFmax=6)
             except Exception as e:
